@@ -155,6 +155,16 @@ theorem skipBR_complete (r : Rd) (t : UInt8) (n : Nat) (hok : RdOK r) (hl : r.Li
   rw [defaultRecursionDepth_eq, refLen_le_refBR 64 t _ n h] at h2
   exact h2
 
+/-- … and over C04's generalised live sources `Rd.Live2` (`Live`, or a chunked script — chunks of any
+    size, an error only together with the last chunk — over a stream that fits the first buffer) -/
+theorem skipBR_complete_live2 (r : Rd) (t : UInt8) (n : Nat) (hok : RdOK r) (hl : r.Live2)
+    (h : refLen 64 t r.remaining = some n) :
+    ∃ r', skipBR t r = .ok ((), r') ∧ r'.remaining = r.remaining.drop n ∧ r'.readLen = r.readLen + n ∧
+      RdOK r' ∧ r'.Live2 := by
+  have h2 := skipBR_live2 r t hok hl
+  rw [defaultRecursionDepth_eq, refLen_le_refBR 64 t _ n h] at h2
+  exact h2
+
 /-- TOTALITY over ANY source: a result or an error — never a panic (no index out of range on a
     short or nil slice, no (nil, nil) from the reader), and the `for {}` loops terminate -/
 theorem skipBR_total (r : Rd) (t : UInt8) (hok : RdOK r) :
@@ -246,6 +256,14 @@ theorem bufioxDec_complete (r : Rd) (t : UInt8) (n : Nat) (hok : RdOK r) (hl : r
     ∃ r', bufioxDecNext r t = .ok (r.remaining.take n, r') ∧ r'.remaining = r.remaining.drop n ∧
       r'.readLen = r.readLen + n ∧ RdOK r' ∧ r'.Live := by
   have h2 := bufioxDecNext_exact r t hok hl
+  rw [defaultRecursionDepth_eq, refLen_le_refTpl 64 t _ n h] at h2
+  exact h2
+
+theorem bufioxDec_complete_live2 (r : Rd) (t : UInt8) (n : Nat) (hok : RdOK r) (hl : r.Live2)
+    (h : refLen 64 t r.remaining = some n) :
+    ∃ r', bufioxDecNext r t = .ok (r.remaining.take n, r') ∧ r'.remaining = r.remaining.drop n ∧
+      r'.readLen = r.readLen + n ∧ RdOK r' ∧ r'.Live2 := by
+  have h2 := bufioxDecNext_exact2 r t hok hl
   rw [defaultRecursionDepth_eq, refLen_le_refTpl 64 t _ n h] at h2
   exact h2
 
@@ -422,5 +440,126 @@ example : ∃ e, skipBR TT.LIST (Rd.newBytes [11, 0,0,0,2, 0,0,0,1, 65, 0,0] 12)
     have : refLen 65 TT.LIST [11, 0,0,0,2, 0,0,0,1, 65, 0,0] = none := by decide
     rw [this] at h1; cases h1
   · exact he
+
+/-! ## named rejections, for every facility (compositions of `_sound`/`_total` with the grammar facts
+    `refLen_strict_prefix`, `refLen_neg_*`, `refLen_unknown_type`)
+
+  BytesSkipDecoder on a slice `b`; BufferReader.Skip and SkipDecoder-over-bufiox on a reader in any
+  good state over ANY source, in terms of what it still owes (`remaining`); ReaderSkipDecoder over EVERY
+  source script, in terms of the unread stream. -/
+
+theorem bytesDec_rejects_malformed (b : Bytes) (t : UInt8) (h : refLen 65 t b = none) :
+    ∃ e, bytesDecNext ⟨b, 0⟩ t = .err e := by
+  rcases bytesDec_total b t with ⟨x, hx⟩ | he
+  · obtain ⟨n, h1, _⟩ := bytesDec_sound b t x.1 x.2 hx; rw [h] at h1; cases h1
+  · exact he
+
+theorem bytesDec_rejects_strict_prefix (b : Bytes) (t : UInt8) (d n m : Nat) (h : refLen d t b = some n)
+    (hm : m < n) : ∃ e, bytesDecNext ⟨b.take m, 0⟩ t = .err e :=
+  bytesDec_rejects_malformed _ t (refLen_strict_prefix h m hm 65)
+theorem bytesDec_rejects_negative_size_string (b : Bytes) (h : ¬ rd32 b < 2147483648) :
+    ∃ e, bytesDecNext ⟨b, 0⟩ TT.STRING = .err e := bytesDec_rejects_malformed _ _ (refLen_neg_string 65 b h)
+theorem bytesDec_rejects_negative_size_list (t et : UInt8) (rest : Bytes) (ht : t = TT.LIST ∨ t = TT.SET)
+    (h : ¬ rd32 rest < 2147483648) : ∃ e, bytesDecNext ⟨et :: rest, 0⟩ t = .err e :=
+  bytesDec_rejects_malformed _ _ (refLen_neg_list 65 t et rest ht h)
+theorem bytesDec_rejects_negative_size_map (kt vt : UInt8) (rest : Bytes) (h : ¬ rd32 rest < 2147483648) :
+    ∃ e, bytesDecNext ⟨kt :: vt :: rest, 0⟩ TT.MAP = .err e :=
+  bytesDec_rejects_malformed _ _ (refLen_neg_map 65 kt vt rest h)
+theorem bytesDec_rejects_unknown_tag (b : Bytes) (t : UInt8)
+    (ht : fixedSize t = 0 ∧ t ≠ TT.STRING ∧ t ≠ TT.STRUCT ∧ t ≠ TT.MAP ∧ t ≠ TT.SET ∧ t ≠ TT.LIST) :
+    ∃ e, bytesDecNext ⟨b, 0⟩ t = .err e := bytesDec_rejects_malformed _ _ (refLen_unknown_type 65 t b ht)
+theorem bytesDec_rejects_deep (b : Bytes) (t : UInt8) (h : refLen 65 t b = none) :
+    ∃ e, bytesDecNext ⟨b, 0⟩ t = .err e := bytesDec_rejects_malformed b t h
+
+theorem skipBR_rejects_negative_size_string (r : Rd) (hok : RdOK r) (h : ¬ rd32 r.remaining < 2147483648) :
+    ∃ e, skipBR TT.STRING r = .err e := skipBR_rejects_malformed r _ hok (refLen_neg_string 65 _ h)
+theorem skipBR_rejects_negative_size_list (r : Rd) (t et : UInt8) (rest : Bytes) (hok : RdOK r)
+    (hrem : r.remaining = et :: rest) (ht : t = TT.LIST ∨ t = TT.SET) (h : ¬ rd32 rest < 2147483648) :
+    ∃ e, skipBR t r = .err e :=
+  skipBR_rejects_malformed r t hok (by rw [hrem]; exact refLen_neg_list 65 t et rest ht h)
+theorem skipBR_rejects_negative_size_map (r : Rd) (kt vt : UInt8) (rest : Bytes) (hok : RdOK r)
+    (hrem : r.remaining = kt :: vt :: rest) (h : ¬ rd32 rest < 2147483648) :
+    ∃ e, skipBR TT.MAP r = .err e :=
+  skipBR_rejects_malformed r _ hok (by rw [hrem]; exact refLen_neg_map 65 kt vt rest h)
+theorem skipBR_rejects_unknown_tag (r : Rd) (t : UInt8) (hok : RdOK r)
+    (ht : fixedSize t = 0 ∧ t ≠ TT.STRING ∧ t ≠ TT.STRUCT ∧ t ≠ TT.MAP ∧ t ≠ TT.SET ∧ t ≠ TT.LIST) :
+    ∃ e, skipBR t r = .err e := skipBR_rejects_malformed r t hok (refLen_unknown_type 65 t _ ht)
+theorem skipBR_rejects_deep (r : Rd) (t : UInt8) (hok : RdOK r) (h : refLen 65 t r.remaining = none) :
+    ∃ e, skipBR t r = .err e := skipBR_rejects_malformed r t hok h
+
+theorem bufioxDec_rejects_strict_prefix (r : Rd) (b : Bytes) (t : UInt8) (d n m : Nat) (hok : RdOK r)
+    (h : refLen d t b = some n) (hm : m < n) (hrem : r.remaining = b.take m) :
+    ∃ e, bufioxDecNext r t = .err e :=
+  bufioxDec_rejects_malformed r t hok (by rw [hrem]; exact refLen_strict_prefix h m hm 65)
+theorem bufioxDec_rejects_negative_size_string (r : Rd) (hok : RdOK r) (h : ¬ rd32 r.remaining < 2147483648) :
+    ∃ e, bufioxDecNext r TT.STRING = .err e := bufioxDec_rejects_malformed r _ hok (refLen_neg_string 65 _ h)
+theorem bufioxDec_rejects_negative_size_list (r : Rd) (t et : UInt8) (rest : Bytes) (hok : RdOK r)
+    (hrem : r.remaining = et :: rest) (ht : t = TT.LIST ∨ t = TT.SET) (h : ¬ rd32 rest < 2147483648) :
+    ∃ e, bufioxDecNext r t = .err e :=
+  bufioxDec_rejects_malformed r t hok (by rw [hrem]; exact refLen_neg_list 65 t et rest ht h)
+theorem bufioxDec_rejects_negative_size_map (r : Rd) (kt vt : UInt8) (rest : Bytes) (hok : RdOK r)
+    (hrem : r.remaining = kt :: vt :: rest) (h : ¬ rd32 rest < 2147483648) :
+    ∃ e, bufioxDecNext r TT.MAP = .err e :=
+  bufioxDec_rejects_malformed r _ hok (by rw [hrem]; exact refLen_neg_map 65 kt vt rest h)
+theorem bufioxDec_rejects_unknown_tag (r : Rd) (t : UInt8) (hok : RdOK r)
+    (ht : fixedSize t = 0 ∧ t ≠ TT.STRING ∧ t ≠ TT.STRUCT ∧ t ≠ TT.MAP ∧ t ≠ TT.SET ∧ t ≠ TT.LIST) :
+    ∃ e, bufioxDecNext r t = .err e := bufioxDec_rejects_malformed r t hok (refLen_unknown_type 65 t _ ht)
+theorem bufioxDec_rejects_deep (r : Rd) (t : UInt8) (hok : RdOK r) (h : refLen 65 t r.remaining = none) :
+    ∃ e, bufioxDecNext r t = .err e := bufioxDec_rejects_malformed r t hok h
+
+theorem readerDec_rejects_strict_prefix (b : Bytes) (script : List Resp) (t : UInt8) (d n m : Nat)
+    (h : refLen d t b = some n) (hm : m < n) : ∃ e, readerDecNext ⟨b.take m, script⟩ t = .err e :=
+  readerDec_rejects_malformed _ t (refLen_strict_prefix h m hm 65)
+theorem readerDec_rejects_negative_size_string (src : Src) (h : ¬ rd32 src.stream < 2147483648) :
+    ∃ e, readerDecNext src TT.STRING = .err e := readerDec_rejects_malformed src _ (refLen_neg_string 65 _ h)
+theorem readerDec_rejects_negative_size_list (t et : UInt8) (rest : Bytes) (script : List Resp)
+    (ht : t = TT.LIST ∨ t = TT.SET) (h : ¬ rd32 rest < 2147483648) :
+    ∃ e, readerDecNext ⟨et :: rest, script⟩ t = .err e :=
+  readerDec_rejects_malformed _ t (refLen_neg_list 65 t et rest ht h)
+theorem readerDec_rejects_negative_size_map (kt vt : UInt8) (rest : Bytes) (script : List Resp)
+    (h : ¬ rd32 rest < 2147483648) : ∃ e, readerDecNext ⟨kt :: vt :: rest, script⟩ TT.MAP = .err e :=
+  readerDec_rejects_malformed _ _ (refLen_neg_map 65 kt vt rest h)
+theorem readerDec_rejects_unknown_tag (src : Src) (t : UInt8)
+    (ht : fixedSize t = 0 ∧ t ≠ TT.STRING ∧ t ≠ TT.STRUCT ∧ t ≠ TT.MAP ∧ t ≠ TT.SET ∧ t ≠ TT.LIST) :
+    ∃ e, readerDecNext src t = .err e := readerDec_rejects_malformed src t (refLen_unknown_type 65 t _ ht)
+theorem readerDec_rejects_deep (src : Src) (t : UInt8) (h : refLen 65 t src.stream = none) :
+    ∃ e, readerDecNext src t = .err e := readerDec_rejects_malformed src t h
+
+/-! ### non-vacuity at the recursion limit: `k` nested one-element lists around a list<byte>[7] -/
+
+/-- the body of a LIST value of nesting `k + 2` (k+1 containers around a leaf) -/
+def deepList : Nat → Bytes
+  | 0 => [3, 0,0,0,1, 7]
+  | k+1 => [15, 0,0,0,1] ++ deepList k
+
+/-- nesting 64 (63 containers around the leaf): within the claimed range … -/
+example : refLen 64 TT.LIST (deepList 62) = some 316 := by decide +kernel
+/-- … nesting 66: not a value within 65 levels -/
+example : refLen 65 TT.LIST (deepList 64) = none := by decide +kernel
+
+/-- nesting 64 is accepted by all facilities with the same extent (one-byte reads, last byte with io.EOF) -/
+example :
+    skipBin (deepList 62) TT.LIST = .ok 316 ∧
+    (∃ r', skipBR TT.LIST (Rd.newDefault ⟨deepList 62, List.replicate 315 ⟨1, none⟩ ++ [⟨1, some .eof⟩]⟩)
+      = .ok ((), r') ∧ r'.readLen = 316) ∧
+    (∃ r', bufioxDecNext (Rd.newBytes (deepList 62) 316) TT.LIST = .ok (deepList 62, r')) ∧
+    (∃ s', readerDecNext ⟨deepList 62, List.replicate 315 ⟨1, none⟩ ++ [⟨1, some .eof⟩]⟩ TT.LIST
+      = .ok (deepList 62, s')) := by
+  have h := three_agree (deepList 62) TT.LIST 316 316 (List.replicate 315 ⟨1, none⟩ ++ [⟨1, some .eof⟩])
+    (by decide +kernel) (by decide +kernel) (by decide +kernel) (by decide +kernel)
+  obtain ⟨h1, _, _, ⟨r2, h2, _, h2'⟩, ⟨r3, h3, _⟩, _, ⟨s4, h4, _⟩⟩ := h
+  have ht : List.take 316 (deepList 62) = deepList 62 := by decide +kernel
+  rw [ht] at h3 h4
+  exact ⟨h1, ⟨r2, h2, h2'⟩, ⟨r3, h3⟩, ⟨s4, h4⟩⟩
+
+/-- nesting 66 is rejected by all facilities — the stream ones over every script -/
+example (script : List Resp) :
+    (∃ e, skipBin (deepList 64) TT.LIST = .err e) ∧ (∃ e, bytesDecNext ⟨deepList 64, 0⟩ TT.LIST = .err e) ∧
+    (∃ e, skipBR TT.LIST (Rd.newBytes (deepList 64) 400) = .err e) ∧
+    (∃ e, skipBR TT.LIST (Rd.newDefault ⟨deepList 64, script⟩) = .err e) ∧
+    (∃ e, bufioxDecNext (Rd.newBytes (deepList 64) 400) TT.LIST = .err e) ∧
+    (∃ e, bufioxDecNext (Rd.newDefault ⟨deepList 64, script⟩) TT.LIST = .err e) ∧
+    (∃ e, readerDecNext ⟨deepList 64, script⟩ TT.LIST = .err e) :=
+  all_reject_beyond_65 (deepList 64) TT.LIST 400 script (by decide +kernel) (by decide +kernel) (by decide +kernel)
 
 end Verif.C08
